@@ -27,6 +27,14 @@ class Copeland(Suite):
         n = 500 if tier == "quick" else 6000
         for _ in range(n):
             cases.append({"s": gen.pick_scheme(rng), "D": gen.random_dataset(rng, 8, 6)})
+        # penalties of very different magnitudes (all exactly representable): the two costs of a pair may be huge and differ by one unit -
+        # a genuine victory, however small the relative difference
+        for _ in range(80 if tier == "quick" else 800):
+            big = rng.choice([1e6, 1e6, 2.0 ** 22, 1e7])
+            s = rng.choice([[[0.0, 1.0, 1.0, 0.0, big, 0.0], [1.0, 1.0, 0.0, 1.0, 1.0, 0.0]],
+                            [[0.0, 1.0, 1.0, big, big, big], [1.0, 1.0, 0.0, big, big, 0.0]],
+                            [[0.0, 1.0, big, 0.0, 1.0, 1.0], [big, big, 0.0, 1.0, 1.0, 0.0]]])
+            cases.append({"s": s, "D": gen.random_dataset(rng, 6, 5)})
         return cases
 
     def run(self, case):
